@@ -64,7 +64,7 @@ func (s *Server) propagate(db int, args ...[]byte) {
 var infraCmd = map[string]bool{"ping": true, "echo": true, "auth": true, "select": true, "info": true, "cluster": true, "command": true,
 	"asking": true, "readonly": true, "readwrite": true, "client": true, "dbsize": true, "script": true, "function": true, "eval": true, "keys": true}
 
-func bs(s string) []byte { return []byte(s) }
+func bs(s string) []byte  { return []byte(s) }
 func itob(n int64) []byte { return []byte(strconv.FormatInt(n, 10)) }
 
 func parseInt(b []byte) (int64, bool) {
